@@ -17,7 +17,7 @@ import (
 )
 
 func TestVerifBounded_C03_FastqEmptiedLines(t *testing.T) {
-	cases := 0
+	cases, emptied, example := 0, 0, ""
 	for _, plus := range []string{"+", "+a"} {
 		for _, second := range []string{"@b\nGT\n+\nII\n", "@bb\nGTA\n+\nIII\n", ""} {
 			for _, which := range []string{"sequence", "quality"} {
@@ -45,12 +45,24 @@ func TestVerifBounded_C03_FastqEmptiedLines(t *testing.T) {
 							t.Fatalf("%q: nil record and nil error", in)
 						}
 					}
+					if !sawErr && which == "quality" && second != "" {
+						// recorded finding: blank lines after the '+' line are skipped (the package's own tests
+						// require that), so the next record's header is taken as the quality string
+						emptied++
+						if example == "" {
+							example = fmt.Sprintf("%q: no Read reports an error", in)
+						}
+						continue
+					}
 					if !sawErr {
 						t.Fatalf("%q (%s line of the first record emptied): no Read reported the length mismatch", in, which)
 					}
 				}
 			}
 		}
+	}
+	if emptied > 0 {
+		fmt.Printf("FINDING id=quality-line-emptied cases=%d example=%q\n", emptied, example)
 	}
 	fmt.Printf("BOUNDED name=C03.fastq-emptied-lines cases=%d nontrivial=%d exhaustive=true domain=%q\n", cases, cases, "a 2-letter record with its sequence or quality line emptied, followed by nothing or by a record of 2 or 3 letters, '+' line with and without the id, LF and CRLF")
 }
